@@ -141,15 +141,16 @@ func verifKeyErr(err error) string {
 
 // VerifKeys reports what the crypto setup answers right now when asked for the opener of each level
 // (the `keys` input of the gate model).
-func (c *Conn) VerifKeys() (initial, hs, oneRTT string) {
+func (c *Conn) VerifKeys() (initial, hs, oneRTT, zeroRTT string) {
 	cs, ok := c.cryptoStreamHandler.(handshake.CryptoSetup)
 	if !ok {
-		return "other", "other", "other"
+		return "other", "other", "other", "other"
 	}
 	_, e1 := cs.GetInitialOpener()
 	_, e2 := cs.GetHandshakeOpener()
 	_, e3 := cs.Get1RTTOpener()
-	return verifKeyErr(e1), verifKeyErr(e2), verifKeyErr(e3)
+	_, e4 := cs.Get0RTTOpener()
+	return verifKeyErr(e1), verifKeyErr(e2), verifKeyErr(e3), verifKeyErr(e4)
 }
 
 // VerifTryOpenLong says whether the AEAD of the packet's level opens this long-header packet (one
@@ -172,6 +173,8 @@ func (c *Conn) VerifTryOpenLong(part []byte) (opened, known bool) {
 		opener, err = cs.GetInitialOpener()
 	case protocol.PacketTypeHandshake:
 		opener, err = cs.GetHandshakeOpener()
+	case protocol.PacketType0RTT:
+		opener, err = cs.Get0RTTOpener()
 	default:
 		return false, false
 	}
